@@ -457,6 +457,35 @@ func compCmp(o *out, seed uint64, tier string) {
 			}
 		}
 	}
+	// 2b. the final literal run swept over the length-encoding boundaries (15, 15+255k and their
+	//     neighbours) after a match-rich prefix, and the same for a literal run in the MIDDLE of the
+	//     block (followed by a second match-rich part), both compressors, destination at the bound
+	for _, t := range []int{12, 13, 14, 15, 16, 17, 268, 269, 270, 271, 272, 523, 524, 525, 526, 527, 779, 780, 781, 1035, 1290} {
+		for _, mid := range []bool{false, true} {
+			n := 80 + t
+			if mid {
+				n += 80
+			}
+			src := make([]byte, n)
+			x := uint32(t)*2654435761 + 99
+			for i := range src {
+				if i < 80 || i >= 80+t {
+					src[i] = byte('a' + i%3)
+				} else {
+					x = x*1664525 + 1013904223
+					src[i] = byte(x >> 24)
+				}
+			}
+			for _, algo := range []string{"fast", "hc"} {
+				for _, d := range []int{0, 512} {
+					if algo == "fast" && d != 0 {
+						continue
+					}
+					emit(&cmpCase{src: src, algo: algo, depth: d, dstlen: lz4.CompressBlockBound(n), ep: 1, stale: r.intn(1000)}, "literal-run-length-boundaries")
+				}
+			}
+		}
+	}
 	// 3. medium sources, at bound and below
 	for i := 0; i < 260*mult; i++ {
 		n := 41 + r.intn(3000)
